@@ -288,6 +288,8 @@ type nodePeer struct {
 	servedBadBlock bool
 	// the user has banned its address (C13)
 	userBanned bool
+	// it dropped a connection (a deviation)
+	dropped bool
 	// C15: how it reacts to a transaction announcement before / after the
 	// first block event, and the announcements it has received
 	fh       map[chainhash.Hash]chainhash.Hash // a liar's own filter header chain
@@ -325,6 +327,7 @@ type nodeH struct {
 	poisoned      string
 	poisonedNote  string
 	poisonChecked uint32
+	cutShort      bool // the run ended at the step cap, possibly in the middle of a resolution
 	noWait        bool // C17: the next remote write is not followed by a Wait
 	stopTask      *verifbubble.Task
 	lastTip       *verifchain.Node // C02: the stored tip at the previous quiescent point
@@ -1359,6 +1362,7 @@ func nodeRun(c *verifeng.Chooser, f *nodeFix, env *verifhfs.Env, mode nodeMode, 
 				// depend on the random order of a map for it, which the
 				// determinised runtime fixes)
 				c.Note("300 steps without reaching the end of the script")
+				h.cutShort = true
 				break
 			}
 			c.Fail(mode.name, mode.name+":no-progress", "800 steps without reaching the end of the script")
@@ -1427,7 +1431,7 @@ func nodeRun(c *verifeng.Chooser, f *nodeFix, env *verifhfs.Env, mode nodeMode, 
 			if cn == nil || !cn.ready || p.name == "H" || mode.noEarly {
 				continue
 			}
-			menu = append(menu, nodeAct{name: p.name + " drops the connection", cost: 1, run: func() { cn.c.Close() }})
+			menu = append(menu, nodeAct{name: p.name + " drops the connection", cost: 1, run: func() { p.dropped = true; cn.c.Close() }})
 		}
 		if mode.stops {
 			menu = append(menu, nodeAct{name: "Stop", cost: 1, run: func() { stopNow = true }})
@@ -1946,7 +1950,7 @@ func (h *nodeH) finalChecks() bool {
 				return c.Fail("C13", "C13:service-bits-not-disconnected", "%s (%s) advertised services %v and its connection is still open", p.name, p.addr, p.services())
 			}
 		case "false-cfheaders", "false-cfheaders-true-filter":
-			if h.oracle != "C03" || h.poisoned != "" {
+			if h.oracle != "C03" || h.poisoned != "" || h.cutShort {
 				continue
 			}
 			for key, who := range h.answered {
@@ -1955,7 +1959,9 @@ func (h *nodeH) finalChecks() bool {
 				}
 			}
 		case "honest":
-			if h.oracle == "C03" && h.poisoned == "" && h.cs.IsBanned(p.addr) {
+			// (a second honest node that dropped its connection in the
+			// middle of a resolution has not "answered correctly")
+			if h.oracle == "C03" && h.poisoned == "" && !p.dropped && h.cs.IsBanned(p.addr) {
 				return c.Fail("C03", "C03:honest-peer-banned", "the honest remote %s (%s) is banned", p.name, p.addr)
 			}
 		case "bad-block", "bad-witness":
